@@ -203,3 +203,11 @@ package repository
 //@     invariant [same-loader] loader == clockLoaders[rangeindex1 + 1]
 //@   loop 3
 //@     invariant [kept] forall k int :: { clockLoaders[k] } 0 <= k && k < len(clockLoaders) && (exists j int :: { clockLoaders[k].Clocks[j] } 0 <= j && j < len(clockLoaders[k].Clocks) && !clockExists(clockLoaders[k].Clocks[j])) ==> (exists i int :: { loaderToRun[i] } 0 <= i && i < len(loaderToRun) && loaderToRun[i] == clockLoaders[k])
+
+// The go-git implementation of RemoveAll (C14: "wiping leaves no git-bug configuration behind"): asked to remove
+// a whole section - a key prefix without dot, as wipe does with "git-bug" - it removes every key of that section,
+// those of its subsections (git-bug.bridge.<name>.*) included, and nothing else.
+//@ func (*goGitConfigWriter).RemoveAll
+//@   props C14
+//@   requires cw != nil && cw.repo != nil
+//@   check [whole-section-removed] result == nil && len(split) == 1 && keyPrefix != "" ==> (forall k string :: { (k in cfgKeys) } (k in cfgKeys) == (old(k in cfgKeys) && !strings.HasPrefix(k, keyPrefix + ".")))
